@@ -1,0 +1,7 @@
+//go:build !verif
+
+package discovery
+
+// verifYield marks a point at which the verification harness (build tag verif) may deliver messages.
+// Without the tag it does nothing.
+func verifYield(uint16, string) {}
